@@ -92,6 +92,15 @@ def _worker(args):
     kind = ['nonfinite', 'interior', 'needle', 'corner', 'plateau', 'categorical'][(it + it // 6) % 6]
     if it % 4 == 1:
       kind = 'plateau'
+    lastslot = it >= 1000
+    if lastslot:
+      # a space large enough for the pool to reach its configured ceiling, a batch size that does not divide that ceiling, more
+      # prior points than the pool has room for and the best of them kept in the LAST slot of the pool; the budget walks the
+      # whole pool, so that point is proposed (pool members are proposed as they are in the first round) and the result
+      # cannot be worse than it
+      ncont, cats, pad, strat, kind = r.choice([36, 40]), [], False, 'eagle', 'needle'
+      batch, count = r.choice([32, 30, 40, 64]), 2
+      maxev = 6 * batch
     tag = dict(strategy=strat, n_continuous=ncont, categorical_sizes=cats, feature_padding=pad, batch=batch, count=count,
                max_evaluations=maxev, score=kind, seed=it)
     prob, conv = make(ncont, cats, pad)
@@ -105,22 +114,30 @@ def _worker(args):
     except Exception as e:  # pylint: disable=broad-except
       viol('building the %s optimiser failed: %s' % (strat, type(e).__name__), dict(tag, error=str(e)[:300]))
       continue
-    tgt = np.array([r.random() for _ in range(8)])
+    tgt = np.array([r.random() for _ in range(64 if lastslot else 8)])
     if kind == 'corner':
       tgt = np.array([r.choice([0., 1.]) for _ in range(8)])
     prior, needle = None, None
-    many = strat == 'eagle' and it % 8 == 3          # more prior points than the pool has room for; the best one is the oldest
+    many = (strat == 'eagle' and it % 8 == 3) or lastslot   # more prior points than the pool has room for; the best one is the oldest
     if many:
       kind = 'needle'
       tag['score'] = kind
     if many or r.random() < 0.5:
       trials = []
-      for _ in range(r.choice([110, 140]) if many else r.choice([1, 3, 6])):
+      for _ in range(r.choice([110, 140]) if many and not lastslot else 150 if lastslot else r.choice([1, 3, 6])):
         params = {('x%d' % i): r.random() for i in range(ncont)}
         params.update({('c%d' % j): chr(97 + r.randrange(kk)) for j, kk in enumerate(cats)})
         trials.append(vz.Trial(parameters=params))
       prior = conv.to_features(trials)
       needle = (jnp.asarray(prior.continuous.padded_array[0]), jnp.asarray(prior.categorical.padded_array[0]))
+      if lastslot:
+        # the pool keeps its first slots for random points and fills the rest with the most recent prior points, newest first:
+        # the prior point that starts in the last slot is the (pool_left_space)-th most recent one
+        st_ = opt.strategy
+        left = st_.pool_size - int(st_.pool_size * (1 - st_.config.prior_trials_pool_pct))
+        ni = len(trials) - left
+        needle = (jnp.asarray(prior.continuous.padded_array[ni]), jnp.asarray(prior.categorical.padded_array[ni]))
+        tag['pool_size'], tag['needle_is_prior'] = int(st_.pool_size), ni
     tag['prior'] = prior is not None
     tag['n_prior'] = 0 if prior is None else int(prior.continuous.padded_array.shape[0])
     evals = []
@@ -200,7 +217,7 @@ def _worker(args):
       if pr.size and not np.isnan(rew).any() and rew.max() < pr.max() - 1e-9:
         # The listed finding: the optimiser is seeded with the prior points but never counts them as candidates.  It only
         # explains this input if the strategy really started from the best prior point; otherwise the seeding itself lost it.
-        retained = True
+        retained, reached = True, False
         if strat == 'eagle' and seeded:
           pf_, prw_, pool_ = seeded[0]
           pc_, pk_ = np.asarray(pf_.continuous), np.asarray(pf_.categorical)
@@ -209,8 +226,18 @@ def _worker(args):
           present = [i for i in range(pc_.shape[0])
                      if any(np.array_equal(pc_[i], qc_[j]) and np.array_equal(pk_[i], qk_[j]) for j in range(qc_.shape[0]))]
           retained = bool(present) and max(fin_[i] for i in present) >= fin_.max() - 1e-9
+          if retained:
+            # the pool is walked batch by batch; in its first round the strategy proposes the pool members themselves, so a
+            # prior point kept in slot j is proposed - and counted as a candidate - in step j // batch if the budget gets there
+            best_i = max(present, key=lambda i: fin_[i])
+            slots = [j for j in range(qc_.shape[0]) if np.array_equal(pc_[best_i], qc_[j]) and np.array_equal(pk_[best_i], qk_[j])]
+            reached = any(j // batch < nsteps for j in slots)
+            out = dict(out, pool_size=int(qc_.shape[0]), best_prior_slots=slots, steps=nsteps)
         kf = 'C19-prior-points-are-not-candidates'
-        if retained and kf in known:
+        if retained and reached and strat == 'eagle' and seeded:
+          viol('the best prior point was kept in the strategy\'s pool and the budget covers its turn, yet the result is worse than it '
+               '(that pool slot is never proposed)', dict(out, best_prior=float(pr.max()), n_prior=tag['n_prior']))
+        elif retained and kf in known:
           rep.known(kf, known[kf]['what'])
         elif not retained:
           viol('the result is worse than the best prior point, and the strategy was not started from that point (the pool it was '
@@ -282,7 +309,8 @@ def run(tier, seed):
   rep.rule = ('feature layouts with 0..3 continuous and 0..3 categorical features (sizes 2/3/5), with and without feature padding (powers of 2); eagle '
               'and random strategies; batch 3/5/10, count 1..12 (also count > batch and count > all evaluations), 30..100 evaluations; score '
               'functions with the optimum in the interior, at a corner, on a categorical choice, with plateaus, with NaN / -inf regions, and a '
-              'needle exactly at a prior point; with and without prior features; every run repeated with the same seed; every call of the score '
+              'needle exactly at a prior point; with and without prior features; one layout with 36-40 continuous features (pool at its ceiling), a '
+              'batch size that does not divide the ceiling, 150 prior points and the best of them in the last pool slot; every run repeated with the same seed; every call of the score '
               'function is recorded (python loop, use_fori=False) so that the result can be compared with the best of everything evaluated; '
               'non-trivial = at least two steps and a non-constant score')
   rep.trusted = ['Coq 8.16.1 kernel + vm_compute', 'harness/translate/optloop.py (Python-ast data-flow of the one-step function, fail-closed)',
@@ -310,6 +338,8 @@ def run(tier, seed):
   import multiprocessing
   nproc = 16
   slices = [list(range(k, nrun, nproc)) for k in range(nproc)]
+  for k_, it_ in enumerate(range(1000, 1001 if quick else 1008)):     # the "best prior in the last pool slot" stratum
+    slices[(3 + k_) % nproc].append(it_)
   cases, objs = [], []
   with concurrent.futures.ProcessPoolExecutor(max_workers=nproc, mp_context=multiprocessing.get_context('spawn')) as pool:
     for events in pool.map(_worker, [(seed, sl, {k: v['what'] for k, v in known.items()}) for sl in slices if sl]):
